@@ -234,6 +234,32 @@ func rulesRepl(c *Ctx) {
 				if tt.isTable(x.Map) {
 					if k, ok := constInt(x.Value); ok {
 						assigns = append(assigns, assign{k, x, f})
+					} else if p, isParam := x.Value.(*ssa.Parameter); isParam {
+						// a setter of the replicator (setTaskState(hash, state)): the states its
+						// callers hand in, each assigned where the setter is called
+						idx := -1
+						for i, q := range f.Params {
+							if q == p {
+								idx = i
+							}
+						}
+						okAll, sites := true, 0
+						for _, g := range fns {
+							eachCall(g, func(cs ssa.CallInstruction) {
+								if cs.Common().StaticCallee() != f || idx < 0 || idx >= len(cs.Common().Args) {
+									return
+								}
+								sites++
+								if k, ok := constInt(cs.Common().Args[idx]); ok {
+									assigns = append(assigns, assign{k, cs, g})
+								} else {
+									okAll = false
+								}
+							})
+						}
+						if !okAll || sites == 0 {
+							c.undecided("Q1", fnKey(f)+"→tasks[]=non-constant", x.Pos(), "a task state is assigned from a non-constant value")
+						}
 					} else {
 						c.undecided("Q1", fnKey(f)+"→tasks[]=non-constant", x.Pos(), "a task state is assigned from a non-constant value")
 					}
